@@ -50,6 +50,10 @@ def genuine(rng, n_generated_per_vendor: int = 3):
         out.append((f"kaifa_list1_reg_{reg:08x}_frame", "Kaifa", "frame", ce.apdu(body, dt12, True)))
     for i in range(2):
         out.append((f"gen_p1_block_{i}", "P1", "block", p1_block(rng)))
+    # a P1 block is not an HDLC payload: nothing limits it to 2047 octets (DSMR text message of 1024 octets, hex coded; many M-Bus lines)
+    big = p1_block(rng) + b"0-0:96.13.0(" + bytes(rng.choice(b"0123456789ABCDEF") for _ in range(2048)) + b")\r\n"
+    out.append(("gen_p1_block_2300_octets", "P1", "block", big))
+    out.append(("gen_p1_block_7000_octets", "P1", "block", b"".join(p1_block(rng) for _ in range(40))[:6000].rsplit(b"\n", 1)[0] + b"\n" + big[-2063:]))
     return out
 
 
@@ -83,7 +87,7 @@ def mutate(rng, msg: bytes) -> tuple[bytes, str]:
 
 def structured_junk(rng) -> tuple[bytes, str]:
     """Well-formed COSEM that is not a documented list, and genuine frames with an unusual LLC header."""
-    kind = rng.choice(("kaifa_odd_length", "kaifa_odd_length_frame", "llc_variant", "kamstrup_unknown_obis", "apdu_null_datetime", "datetime_ff", "deep_nesting", "deep_nesting"))
+    kind = rng.choice(("kaifa_odd_length", "kaifa_odd_length_frame", "llc_variant", "kamstrup_unknown_obis", "aidon_or_kaifa_unknown_obis", "repeated_elements", "repeated_elements", "apdu_null_datetime", "datetime_ff", "deep_nesting", "deep_nesting"))
     if kind == "deep_nesting":
         # structures / arrays nested 5..40 deep (a grammar with alternatives that re-parse the same bytes is exponential in the depth)
         depth = rng.choice((5, 8, 12, 16, 20, 24, 32, 40))
@@ -120,8 +124,30 @@ def structured_junk(rng) -> tuple[bytes, str]:
         i = rng.randrange(3)
         fr[i] = rng.choice((0x00, 0xE6, 0xE7, 0x03, 0xFF, rng.randrange(256)))
         return bytes(fr), kind
-    if kind == "kamstrup_unknown_obis":
-        c = dlms_gen.kamstrup_case(rng)
+    if kind == "repeated_elements":
+        # an otherwise well-formed list in which one OBIS element occurs 2..6 times (same code; same or different registers)
+        k = rng.choice((2, 3, 3, 4, 6))
+        vendor = rng.choice(("aidon", "kaifa_se", "kamstrup"))
+        code = rng.choice(((1, 0, 1, 7, 0, 255), (1, 1, 1, 7, 0, 255), (1, 0, 31, 7, 0, 255), (1, 1, 1, 8, 0, 255), (0, 0, 1, 0, 0, 255), (0, 1, 1, 0, 0, 255), (1, 0, 99, 99, 0, 255)))
+        regs = [rng.randrange(2**32)] * k if rng.random() < 0.5 else [rng.randrange(2**32) for _ in range(k)]
+        dt12, _ = dlms_gen.gen_datetime(rng)
+        is_clock = code[2:5] == (1, 0, 0)
+        if vendor == "aidon":
+            rep = [ce.aidon_element(code, "datetime", dt12) if is_clock else ce.aidon_element(code, "u32", r, 0, ce.UNIT_W) for r in regs]
+            other = [ce.aidon_element((1, 0, 2, 7, 0, 255), "u32", 5, 0, ce.UNIT_W)]
+            els = rep + other if rng.random() < 0.5 else rep[:1] + other + rep[1:]
+            body = ce.aidon_body(els)
+        else:
+            rep = [(code, ce.datetime_octets(dt12) if is_clock else ce.u32(r)) for r in regs]
+            other = [((1, 1, 2, 7, 0, 255), ce.u32(5))]
+            pairs = rep + other if rng.random() < 0.5 else rep[:1] + other + rep[1:]
+            body = ce.kaifa_obis_body(pairs) if vendor == "kaifa_se" else ce.kamstrup_body("Kamstrup_V0001", pairs, [0] * (len(pairs) + 1))
+        if rng.random() < 0.5:
+            return ce.apdu(body, dt12, rng.random() < 0.5), kind
+        return body, kind
+    if kind in ("kamstrup_unknown_obis", "aidon_or_kaifa_unknown_obis"):
+        # a well-formed list carrying an OBIS code that the vendor's table does not name
+        c = dlms_gen.kamstrup_case(rng) if kind.startswith("kamstrup") else rng.choice((dlms_gen.aidon_case(rng), dlms_gen.kaifa_case(rng, "se")))
         b = bytearray(c.body if rng.random() < 0.5 else c.frame)
         idx = [i for i in range(len(b) - 8) if b[i] == 0x09 and b[i + 1] == 0x06 and b[i + 7] == 0xFF]
         if idx:
@@ -210,6 +236,13 @@ def canonical_inputs() -> list[tuple[bytes, str]]:
             out.append((f"1-0:1.8.0(1*{run}x)\r\n".encode(), "canonical"))
             out.append((f"{run}x(1*kWh)\r\n".encode(), "canonical"))
             out.append((f"{run}".encode(), "canonical"))
+    # numbers whose *value* is huge while their text is short (exact decimal / integer arithmetic on them is quadratic or worse in the
+    # exponent), for every unit that is converted and some that are not, alone and as the second value of an M-Bus style data set
+    for v in ("1e99", "1e999", "1e9999", "1e99999", "1e999999", "9e999999", "04e900857", "4.5e600000", "1E+999999", "1e-999999", "0.1e1000000", "-1e999999", "1e0999999", "9" * 400 + "e999000"):
+        for unit in ("kW", "kWh", "kvar", "kvarh", "V", "A", "var", "varh", "m3", "GJ", "Wh", None):
+            u = f"*{unit}" if unit else ""
+            out.append((f"1-0:1.8.0({v}{u})\r\n".encode(), "canonical"))
+            out.append((f"0-1:24.2.1(180924130000S)({v}{u})\r\n".encode(), "canonical"))
     for depth in (10, 20, 30, 40, 60):
         body = b"\x0f\x00"
         for _ in range(depth):
